@@ -191,6 +191,49 @@ func (sc *c20Scenario) Run(s *simrt.Sim) {
 			sc.smoke = append(sc.smoke, Violation{Clause: "api-smoke", Fingerprint: "CurryNew", Detail: fmt.Sprintf("CurryNew: Call(1).Call(b,3).Call(4) with MarkDone at 3 args: invocations %v, Result %v, IsDone %v", seen, op.Val, cw.IsDone())})
 		}
 	}
+	// two independent instances used alternately must not see each other's arguments (both constructors)
+	{
+		mk := func(tag string, log *[]string) func(c *fpgo.CurryDef[interface{}, interface{}], args ...interface{}) interface{} {
+			return func(c *fpgo.CurryDef[interface{}, interface{}], args ...interface{}) interface{} {
+				*log = append(*log, tag+fmt.Sprint(args))
+				return fmt.Sprint(args)
+			}
+		}
+		var la, lb []string
+		a, b := fpgo.CurryNew(mk("a", &la)), fpgo.CurryNew(mk("b", &lb))
+		op := h.Do("main", "CurryNew-twins", nil, func() (interface{}, error) {
+			a.Call("a1")
+			b.Call("b1")
+			a.Call("a2")
+			b.Call("b2", "b3")
+			a.Call("a3")
+			return fmt.Sprint(a.Result()) + " " + fmt.Sprint(b.Result()), nil
+		})
+		want := "[a1 a2 a3] [b1 b2 b3]"
+		if op.Panic == "" && (op.Val != want || fmt.Sprint(la) != "[a[a1] a[a1 a2] a[a1 a2 a3]]" || fmt.Sprint(lb) != "[b[b1] b[b1 b2 b3]]") {
+			sc.smoke = append(sc.smoke, Violation{Clause: "api-smoke", Fingerprint: "CurryNew-twin-instances", Detail: fmt.Sprintf("two CurryNew instances used alternately: results %v (want %s), invocations %v / %v", op.Val, want, la, lb)})
+		}
+		var ga, gb [][]int
+		x := fpgo.CurryNewGenerics(func(c *fpgo.CurryDef[int, int], args ...int) int {
+			ga = append(ga, append([]int{}, args...))
+			return len(args)
+		})
+		y := fpgo.CurryNewGenerics(func(c *fpgo.CurryDef[int, int], args ...int) int {
+			gb = append(gb, append([]int{}, args...))
+			return len(args)
+		})
+		h.Do("main", "CurryNewGenerics-twins", nil, func() (interface{}, error) {
+			x.Call(1)
+			y.Call(10)
+			x.Call(2, 3)
+			y.Call(20)
+			x.Call(4)
+			return nil, nil
+		})
+		if fmt.Sprint(ga) != "[[1] [1 2 3] [1 2 3 4]]" || fmt.Sprint(gb) != "[[10] [10 20]]" {
+			sc.smoke = append(sc.smoke, Violation{Clause: "api-smoke", Fingerprint: "CurryNewGenerics-twin-instances", Detail: fmt.Sprintf("two CurryNewGenerics instances used alternately: invocations %v / %v", ga, gb)})
+		}
+	}
 	if sc.DoneInside > 0 || sc.DoneThread {
 		// a Call begun after MarkDone returned must not invoke fn
 		before := len(sc.invs)
